@@ -72,6 +72,7 @@ Signatures (root causes, not inputs):
   EXC:<Type>@<frame>               (engine) an exception outside the documented contract, e.g. the
                                    KeyError of the blank-first-line defect
 """
+import zlib
 import re
 
 from hypothesis import strategies as st  # noqa: F401  (strategies come from the gen module)
@@ -423,6 +424,10 @@ def comment_adjacent(kind, value_text, idx):
 
 # ------------------------------------------------------------------------------------------
 # a second, read-only view of the same field
+
+
+class _Abandoned(Exception):
+    """The caller's own exception, raised inside a ``with`` block."""
 
 
 class Probe(object):
@@ -852,16 +857,47 @@ def check(case):
     if any(how == "reopen" for how, _ in segments):
         labels.add("reopened")
 
+    # Every documented way to a view of the field must show the same thing at any time.
+    def fresh_reads(p):
+        yield "as_interpreted_dict_view()[name]", list(p.as_interpreted_dict_view(INTERP[kind])[name])
+        yield "get_kvpair_element(name).interpret_as()", list(p.get_kvpair_element(name).interpret_as(INTERP[kind]))
+        yield "interpretation.interpret(kvpair)", list(INTERP[kind].interpret(p.get_kvpair_element(name)))
+
+    # An edit that is abandoned - the ``with`` block is left by the caller's own exception, so
+    # nothing is written back - made first on the same field through each route, in about half of
+    # the cases: the document is unchanged, and every later view shows the field's text.
+    if values and not G.line_breakers(case) and zlib.crc32(doc.encode("utf-8")) & 1:
+        for route in (lambda: para.as_interpreted_dict_view(INTERP[kind])[name],
+                      lambda: para.get_kvpair_element(name).interpret_as(INTERP[kind])):
+            try:
+                with route() as view:
+                    view.append(values[-1])
+                    view.remove(values[0])
+                    raise _Abandoned()
+            except _Abandoned:
+                pass
+        labels.add("abandoned-edit-before")
+        if f.dump() != doc:
+            raise Violation("abandoned-edit-changed-document", "views left by an exception after append(%r) and "
+                            "remove(%r) turned %s into %s" % (values[-1], values[0], short(doc), short(f.dump())))
+        for what, got in fresh_reads(para):
+            if got != values:
+                raise Violation(read_sig(value_text, got), "after an abandoned edit a fresh view (%s) of %s yields "
+                                "%s, splitting gives %s" % (what, short(name + ":" + value_text), short(got), short(values)))
+            if f.dump() != doc:
+                raise Violation("noop-changes-document", "after an abandoned edit, reading a fresh view (%s) "
+                                "turned %s into %s" % (what, short(doc), short(f.dump())))
+
     probe = Probe(f, para, kind, name, labels)
     total_edits = total_refusals = 0
     s = None
     for no, (how, ops) in enumerate(segments):
         if s is None or how != "reenter":
             # (1) a fresh view reads exactly the split values
-            got = list(para.as_interpreted_dict_view(INTERP[kind])[name])
-            if got != values:
-                raise Violation(read_sig(value_text, got), "view of %s yields %s, splitting gives %s"
-                                % (short(name + ":" + value_text), short(got), short(values)))
+            for what, got in fresh_reads(para):
+                if got != values:
+                    raise Violation(read_sig(value_text, got), "view (%s) of %s yields %s, splitting gives %s"
+                                    % (what, short(name + ":" + value_text), short(got), short(values)))
             same_view = list(ops)
             for how2, ops2 in segments[no + 1:]:
                 if how2 != "reenter":
@@ -920,10 +956,10 @@ def check(case):
             raise Violation("reparse-differs", "new text %s splits into %s, edited list is %s (from %s by %s)"
                             % (short(new_ftext), short(got), short(want), short(ftext), short(ops)))
         for what, p in (("same paragraph", para), ("re-parsed dump", next(iter(f2)))):
-            got = list(p.as_interpreted_dict_view(INTERP[kind])[name])
-            if got != want:
-                raise Violation(read_sig(new_value_text, got), "fresh view (%s) of %s yields %s, edited "
-                                "list is %s" % (what, short(new_ftext), short(got), short(want)))
+            for route, got in fresh_reads(p):
+                if got != want:
+                    raise Violation(read_sig(new_value_text, got), "fresh view (%s, %s) of %s yields %s, edited "
+                                    "list is %s" % (what, route, short(new_ftext), short(got), short(want)))
         if not suffix and not doc.endswith("\n"):
             labels.add("edited-unterminated-last-field")
         doc, ftext, value_text, values = dump, new_ftext, new_value_text, want
